@@ -192,6 +192,7 @@ type ordNet struct {
 	pendReq   map[string]uint64 // "<to>/<fwdID>" -> origin
 	stats     map[string]int64
 	self      string
+	timed     bool
 	typ       string
 	n         int
 	batch     int
@@ -255,6 +256,9 @@ func (nw *ordNet) spawn(id uint64, extraEnv []string, extraArgs ...string) error
 	inc := c.inc
 	nw.mu.Unlock()
 	args := []string{"ord-node", "-id", fmt.Sprint(id), "-n", fmt.Sprint(nw.n), "-dir", c.dir, "-type", nw.typ, "-batch", fmt.Sprint(nw.batch), "-inc", fmt.Sprint(inc)}
+	if nw.timed {
+		args = append(args, "-timed")
+	}
 	args = append(args, extraArgs...)
 	cmd := exec.Command(nw.self, args...)
 	cmd.Env = append(os.Environ(), extraEnv...)
@@ -376,6 +380,10 @@ func ordScenario(w *vlog.W, a *wargs, id int, rng *rand.Rand, viol func(sig, det
 		self: self, typ: typ, n: n, batch: 1 + rng.Intn(5), base: base}
 	if rng.Intn(2) == 0 {
 		nw.dropP, nw.dupP = 0.03, 0.03
+	}
+	nw.timed = rng.Intn(4) == 0
+	if nw.timed {
+		w.Count("scenario:timed-block-generation", 1)
 	}
 	nw.maxDelay = time.Duration(rng.Intn(15)) * time.Millisecond
 	for i := 1; i <= n; i++ {
@@ -629,7 +637,7 @@ func ordScenario(w *vlog.W, a *wargs, id int, rng *rand.Rand, viol func(sig, det
 		ev = append(ev, k)
 	}
 	sort.Strings(ev)
-	return fmt.Sprintf("%s|b%d|loss%v|%s", kind, nw.batch, nw.dropP > 0, strings.Join(ev, ",")), len(ev) > 0
+	return fmt.Sprintf("%s|b%d|loss%v|timed%v|%s", kind, nw.batch, nw.dropP > 0, nw.timed, strings.Join(ev, ",")), len(ev) > 0
 }
 
 func ord20Workload(args []string) int {
